@@ -6,25 +6,38 @@ from ..gen import pdbfmt
 
 
 def input_index(items):
-    """rounded xyz -> (truth residue key, atom name) for every input atom."""
+    """rounded xyz -> (ordinal of the residue block in file order, atom name) for every input atom.
+    Residue blocks are runs of records sharing (chain, resi, icode), broken by TER - the same order in which the
+    generators emit their ground truth."""
     idx = {}
-    for a in pdbfmt.atoms_of(items):
-        idx[(round(a["x"], 3), round(a["y"], 3), round(a["z"], 3))] = ((a["chain"], a["resi"], a["icode"]), a["name"])
-    return idx
+    ordinal = -1
+    block = None
+    seg = 0
+    for it in items:
+        if not isinstance(it, dict):
+            if isinstance(it, str) and it.startswith("TER"):
+                seg += 1
+            continue
+        b = (it["chain"], it["resi"], it["icode"], it.get("seg", seg))
+        if b != block:
+            block = b
+            ordinal += 1
+        idx[(round(it["x"], 3), round(it["y"], 3), round(it["z"], 3))] = (ordinal, it["name"], it["resi"])
+    return idx, ordinal + 1
 
 
 def match_residues(bio, items, truth):
     """-> list of (residue, truth dict or None) in bio.residues order."""
-    idx = input_index(items)
-    tmap = {(t["chain"], t["resi"], t["icode"]): t for t in truth}
+    idx, nblocks = input_index(items)
+    aligned = nblocks == len(truth)
     out = []
     for residue in bio.residues:
         tr = None
-        for a in residue.atoms:
-            k = idx.get((round(a.x, 3), round(a.y, 3), round(a.z, 3)))
-            if k is not None and k[0][1] == residue.res_seq:
-                tr = tmap.get(k[0])
-                if tr is not None:
+        if aligned:
+            for a in residue.atoms:
+                k = idx.get((round(a.x, 3), round(a.y, 3), round(a.z, 3)))
+                if k is not None and k[2] == residue.res_seq:
+                    tr = truth[k[0]]
                     break
         out.append((residue, tr))
     return out
